@@ -19,3 +19,16 @@ PROPS["C13"] = dict(
     assumptions=["Timer state ranges over: power-on masks, or masks consistent with the last TAC value (the only states the public API produces)"],
     replay={"*": "playback"},
 )
+
+PROPS["C17"] = dict(
+    level="model_checking",
+    groups=lambda tier, seed, ctx: [Group("c17", ["verif_c17"], jobs=8, harness_timeout=600, mem_gb=16)],
+    functions=["devices::joypad::Joypad::{press_button,release_button,set_value,get_value,get_interrupt,new}",
+               "devices::io::IO::{set_byte,get_byte}(0xFF00) and IO::run_clock_cycles collection (routing harness)"],
+    bounds={"quick": "complete transition relation: arbitrary Joypad state (2x4 buttons, both selects, pending latch) x every single action "
+                     "(press/release of each of 8 buttons, all 256 P1 writes); one action per query (relation is on the full state, so sequences follow by induction)",
+            "thorough": "same (the relation is already complete)"},
+    outside=["P1 bits 6-7 (excluded by the property)"],
+    stubs=[], assumptions=["button nibbles are 4-bit (the only values press/release can produce)"],
+    replay={"*": "playback"},
+)
